@@ -2,6 +2,9 @@
 # tools/scratch.sh <patch.diff> <dir>: scratch copy of the clean worktree's
 # cylc/ package under <dir> (outside /repo and /verif) with the patch applied.
 set -e
+# (the clean worktree is recreated on demand; remove it with
+#  `git -C /repo worktree remove --force /tmp/wt/clean` when done)
+[ -d /tmp/wt/clean ] || { mkdir -p /tmp/wt; git -C /repo worktree add --detach /tmp/wt/clean HEAD >/dev/null 2>&1; }
 rm -rf "$2"; mkdir -p "$2"
 rsync -a --exclude .git --exclude tests --exclude '*.pyc' /tmp/wt/clean/cylc "$2"/
 cd "$2" && patch -p1 -s < "$1"
